@@ -10,7 +10,8 @@ TRUSTED = ["DataHash::pad_to_size exactness is a Section hypothesis of c03_two_p
            "composition pre ++ wrap(jumbf) ++ post (C07/C08/C12)",
            "CBOR/serde encoding of arbitrary payloads, COSE, X.509 trust: exercised by the differential run only",
            "payloads are represented in the model by their position in the definition"]
-ASSUMPTIONS = ["test trust anchors of sdk/tests/fixtures/test_settings.toml; no time-stamp authority; debug-profile harness"]
+ASSUMPTIONS = ["test trust anchors of sdk/tests/fixtures/test_settings.toml; no time-stamp authority; debug-profile harness",
+               "assertion labels contain no '/' and do not use the reserved `__<n>` instance syntax (label grammar)"]
 
 CREATED_ACTION = {"action": "c2pa.created", "digitalSourceType": "http://cv.iptc.org/newscodes/digitalsourcetype/digitalCapture"}
 
@@ -38,7 +39,9 @@ def facts(ctx):
     if not guard:
         raise TieBroken("srcfacts: pad_to_size no longer rejects a target below the current size")
     fb = common.fn_body(cl, r"fn\s+assertion_hashed_uri_from_label\s*\(", "Claim::assertion_hashed_uri_from_label")
-    ctx.facts = {"slack": slack, "lookup_by_contains": fb.count(".contains(assertion_label)")}
+    if ".contains(assertion_label)" in fb or not re.search(r"\.url\(\)\.rsplit\('/'\)\.next\(\)\s*==\s*Some\(assertion_label\)", fb) or fb.count(".find(is_match)") != 3:
+        raise TieBroken("srcfacts: assertion_hashed_uri_from_label no longer matches the label exactly against the last URI segment (fix 9afceaf9c)")
+    ctx.facts = {"slack": slack, "lookup_exact_last_segment": True}
     ni = common.fn_body(cl, r"fn\s+next_instance\s*\(", "Claim::next_instance")
     ctx.facts["next_instance_contains"] = ".contains(&label)" in ni
     v = ("(* generated from sdk/src/store.rs, sdk/src/claim.rs, sdk/src/assertions/data_hash.rs on every run — do not edit *)\n"
